@@ -75,6 +75,10 @@ def strategy(shapes, kinds=None, extra=None, far_mean=False, sharp=False):
             d = draw(gen.arr((Rx, Dx), 0.5, 1.5)) * np.where(draw(gen.arr((Rx, Dx), -1, 1)) < 0, -1.0, 1.0)
             case["px"]["mu"] = np.asarray(case["px"]["mu"], float) + off * d
             case["far_mean"] = off
+        if draw(st.sampled_from([False] * 5 + [True])):
+            # class mixture: p(x) is exactly diagonal and is an instance of the DIAGONAL density class (any conditional class)
+            Sd = np.asarray(case["px"]["Sigma"], float)
+            case["px"] = dict(case["px"], Sigma=Sd * np.eye(Dx)[None], as_diag_class=True)
         if not case.get("far_mean") and not case.get("unit_scale") and not case["c"].get("f32_net") and draw(st.sampled_from([False] * 11 + [True])):
             # dtype regime: the mean of p(x) is integer-valued and passed as an INTEGER array (float covariance); not combined
             # with a single-precision network (JAX promotes int64 with float32 to float32: the user's own precision choice)
@@ -95,7 +99,7 @@ def strategy(shapes, kinds=None, extra=None, far_mean=False, sharp=False):
 def labels(case):
     combo = "(1,1)" if case["Rc"] == 1 and case["Rx"] == 1 else ("(1,n)" if case["Rc"] == 1 else "(n,1)")
     reg = "Dx>Dy" if case["Dx"] > case["Dy"] else ("Dx=Dy" if case["Dx"] == case["Dy"] else "Dx<Dy")
-    return [f"kind={case['kind']}", f"combo={combo}", reg, f"ctor={case['c'].get('ctor')}", f"unit_scale={case.get('unit_scale', 1.0):g}"] + (["far_mean"] if case.get("far_mean") else []) + (["sharp_observation"] if case.get("sharp") else []) + (["y_on_predicted_mean"] if case.get("y_on_mean") else []) + (["px_mean_integer_dtype"] if case["px"].get("mu_int_dtype") else [])
+    return [f"kind={case['kind']}", f"combo={combo}", reg, f"ctor={case['c'].get('ctor')}", f"unit_scale={case.get('unit_scale', 1.0):g}"] + (["far_mean"] if case.get("far_mean") else []) + (["sharp_observation"] if case.get("sharp") else []) + (["y_on_predicted_mean"] if case.get("y_on_mean") else []) + (["px_mean_integer_dtype"] if case["px"].get("mu_int_dtype") else []) + (["px_class=diag"] if case["px"].get("as_diag_class") else ["px_class=full"])
 
 
 def nontrivial(case):
